@@ -1013,6 +1013,7 @@ class Spec:
         # (until the next simulating call has been judged).  A read while they are the same must change nothing: judged.
         self.view_dirty = False  # a read changed the live model's parameters and nothing has been simulated since
         self.guard_view = False
+        self.since = "the simulator was created"  # ... or "clear_results": from when on no run has failed (messages only)
 
 
 def oracle_history(mode: str, y0: list, p0: list, ops: list, obs: list[dict]) -> list[dict]:
@@ -1116,7 +1117,12 @@ def oracle_history(mode: str, y0: list, p0: list, ops: list, obs: list[dict]) ->
         n_old = 0 if prev_segs is None else len(prev_segs)
         got_new = 0 if o["segs"] is None else len(o["segs"]) - n_old
         if got_new != len(pieces):
-            flag(i, f"{len(pieces)} new segment(s) expected, {got_new} appended")
+            stale = ""
+            if got_new == 0 and o["out"] == "done" and o["err"] != "none":
+                # the call returned without simulating although no run has failed since the last clear_results / the start
+                stale = (f": the call returned without simulating and get_result() reports a failed run ({o['err']}) although "
+                         f"no run has failed since {sp.since}")
+            flag(i, f"{len(pieces)} new segment(s) expected, {got_new} appended" + stale)
             return
         t_from, y_from = sp.reached, list(sp.cur)
         for j, (exp_idx, pars, extra) in enumerate(pieces):
@@ -1160,6 +1166,12 @@ def oracle_history(mode: str, y0: list, p0: list, ops: list, obs: list[dict]) ->
         if kind == "clear":
             if o["out"] != "done" or o["segs"] is not None or o["pars"] is not None:
                 flag(i, "clear_results left results behind")
+            elif o["err"] == "nosteady":
+                # a cleared simulator is a new one: nothing simulated yet, and no failure on record (a new Simulator's
+                # get_result() reports that there is no result; it cannot know of a steady-state search)
+                flag(i, "after clear_results get_result() still reports the failure of a run that was cleared (NoSteadyState): "
+                        "clear_results did not forget the failed run, every later simulating call returns without simulating")
+            sp.since = "clear_results"
             # restart from the simulator's start state: the initial conditions with every override made so far
             sp.reached, sp.nseg, sp.failed, sp.pending, sp.tags = F(0), 0, False, {}, set()
             prev_segs, prev_pars = None, None
@@ -1793,6 +1805,75 @@ def gen_clear_after_override(rng, mode: str) -> dict:  # noqa: ANN001
     return {"mode": mode, "y0": [js(v) for v in y0], "p0": [js(v) for v in p0], "ops": ops}
 
 
+def gen_clear_after_failure(rng, mode: str) -> dict:  # noqa: ANN001
+    """[continuation(s) [; override]] ; a run that FAILS ; [calls on the failed simulator] ; clear_results ; continuations ;
+    [an illegal end]  (seeded change C04-8: clear_results no longer forgot the recorded failure, so the cleared simulator
+    stayed inert for ever).  After clear_results the simulator is a new one started from its current start state: the axis
+    starts again at 0, every requested point is there once, the refusal rule applies again, get_result() is a result.
+    The failing run is a steady-state search that cannot succeed (NoSteadyState: exact mode y' = c != 0, the stand-in's
+    iterates never coincide; real scipy: x' = -k x with k = -2^-10 / -2^-11 grows for all 1000 search steps without overflow)
+    or, in exact mode, a continuation while the stand-in solver reports failure (IntegrationFailure: parameter boom != 0,
+    switched off again before or after clear_results)."""
+    y0, p0 = _base(rng, mode)
+    ops: list = []
+    reached: Fraction | None = F(0)
+    if rng.random() < 0.5:
+        ops, reached = _cont_ops(rng, mode, F(0), rng.randint(1, 2))
+        if rng.random() < 0.3:
+            ops.append(["updvar", _one_var(rng)])
+    how = "nosteady" if mode != "exact" or rng.random() < 0.55 else "boom"
+    if how == "nosteady":
+        # (a protocol in the prefix may have set k / c: the values that rule out a steady state are set right before)
+        if mode == "exact":
+            if ops or p0[1] == 0 or rng.random() < 0.3:
+                ops.append(["updpar", {"c": js(rng.choice([F(1, 2), F(1)]))}])
+        else:
+            neg = {"k": js(-F(1, 2 ** rng.choice([10, 11])))}
+            if ops or rng.random() < 0.3:
+                ops.append(["updpar", neg])
+            else:
+                p0[0] = fr(neg["k"])
+        ops.append(["steady"])
+    else:
+        ops.append(["updpar", {"boom": "1"}])
+        r = rng.random()
+        if r < 0.5:
+            ops.append(["sim", js(reached + _g(rng.randint(1, 16))), rng.choice([1, 2, 4])])
+        elif r < 0.8:
+            ops.append(["tc", [js(reached + _g(j)) for j in sorted(rng.sample(range(1, 25), rng.randint(1, 3)))]])
+        else:
+            ops.append(["prot", gen_steps(rng, mode), rng.choice([1, 2])])
+        if rng.random() < 0.5:
+            ops.append(["updpar", {"boom": "0"}])
+            how = "boom-off"
+    # calls on the failed simulator: every simulating call returns without doing anything (legal or not)
+    for _ in range(rng.choice([0, 0, 1, 1, 2])):
+        r = rng.random()
+        if r < 0.4:
+            ops.append(["sim", js(_g(rng.randint(0, 40))), rng.choice([1, 2])])
+        elif r < 0.6:
+            ops.append(["tc", [js(_g(j)) for j in sorted(rng.sample(range(0, 41), 2))]])
+        elif r < 0.75:
+            ops.append(["steady"])
+        elif r < 0.9:
+            ops.append(["updpar", {"k": js(rng.choice([F(1, 2), F(1), F(2)]))}])
+        else:
+            ops.append(["updvar", _one_var(rng)])
+    ops.append(["clear"])
+    if how == "boom":
+        ops.append(["updpar", {"boom": "0"}])
+    elif mode != "exact" or rng.random() < 0.4:
+        ops.append(["updpar", {"k": js(rng.choice([F(1, 2), F(1), F(2), F(1, 4)]))}])
+    more, reached = _cont_ops(rng, mode, F(0), rng.randint(1, 3))
+    ops += more
+    r = rng.random()
+    if r < 0.25:
+        ops.append(["sim", js(reached), rng.choice([1, 2])])  # not later than the time reached: refused
+    elif r < 0.4:
+        ops.append(["tc", [js(max(F(0), reached - _g(rng.randint(1, 8)))), js(reached)]])
+    return {"mode": mode, "y0": [js(v) for v in y0], "p0": [js(v) for v in p0], "ops": ops}
+
+
 def gen_shared_grid(rng, mode: str) -> dict:  # noqa: ANN001
     """a protocol run several times in a row (cycles), every call given the SAME float64 ndarray of (mostly relative)
     time points; each call must leave the array alone and return its own start + points + boundaries"""
@@ -2137,6 +2218,21 @@ CORPUS_C04 += [
     {"mode": "exact", "y0": _Y0, "p0": _P0,
      "ops": [["sim", "1", 2], ["updpar", {"k": "2"}], ["tc", ["3/2", "2"]], ["view", "raw"], ["view", "combined"], ["updvar", {"x": "0"}],
              ["view", "args"], ["sim", "3", 2]]},
+]
+
+# --- third round (seeded/C04-8): a run that fails, clear_results, and a fresh run on the cleared simulator
+CORPUS_C04 += [
+    # the shape of the seeded demo: dx/dt = k (y = 1, c = 0 ... here c = 1 so that the stand-in's iterates never coincide,
+    # x' = k*y), a steady-state search that cannot succeed, clear, two segments under different k, an illegal end
+    {"mode": "exact", "y0": ["0", "1"], "p0": ["1", "1", "0", "0"],
+     "ops": [["steady"], ["clear"], ["updpar", {"k": "2"}], ["sim", "3", 1], ["updpar", {"k": "1/2"}], ["tc", ["4", "5", "7"]], ["sim", "7", 1]]},
+    # a failed continuation (the stand-in solver reports failure) after results exist; calls on the failed simulator; clear
+    {"mode": "exact", "y0": _Y0, "p0": _P0,
+     "ops": [["sim", "2", 2], ["updpar", {"boom": "1"}], ["sim", "3", 1], ["updpar", {"boom": "0"}], ["sim", "4", 1], ["clear"],
+             ["sim", "1", 1], ["tc", ["1", "3/2", "2"]], ["sim", "2", 1]]},
+    # real solver: x' = -k x with k = -2^-10 never settles within the 1000 search steps
+    {"mode": "scipy", "y0": ["1", "1"], "p0": ["-1/1024", "1/2"],
+     "ops": [["sim", "2", 2], ["updvar", {"x": "2"}], ["steady"], ["clear"], ["updpar", {"k": "1/2"}], ["sim", "3", 2], ["tc", ["4", "5", "7"]], ["sim", "7", 1]]},
 ]
 
 WITNESS_STEADY = {"mode": "exact", "y0": ["1", "0"], "p0": ["1", "0", "0", "0"],
